@@ -4544,3 +4544,185 @@ func ruleStaleElementPointer(id, pkg string) func(*Checker) {
 		c.pass(id, "-", "kept element addresses inspected", "-", fmt.Sprintf("%d field assignment(s) through pointers taken out of such a table", n))
 	}
 }
+
+// ---- round 21 ----
+
+// ruleRemovalsOnlyInPrepareWalk — what a fetched package contained stays,
+// unless a rule excludes it.
+func ruleRemovalsOnlyInPrepareWalk(id string) func(*Checker) {
+	return func(c *Checker) {
+		c.rule(id, "In the bundle package a removing call (os.Remove, os.RemoveAll) is made either inside the prepare walk's callback — where C03/C10 tie it to the excluded edge of the ignore rules or to a link that leaves the package — or on the temporary work directory as a whole (the result of TempDir itself, not something below it). A sweep of its own (empty directories, editor backups, …) removes things no rule excludes: a source address that names such a sub-path resolves to a path that is not in the finished bundle.", 1)
+		p := c.P
+		walks := map[*ssa.Function]bool{}
+		for _, w := range bundleWalks(p) {
+			walks[w] = true
+		}
+		var fns []*ssa.Function
+		for _, fn := range p.Funcs {
+			if inBundlePkg(p, fn) {
+				fns = append(fns, fn)
+			}
+		}
+		isTemp := func(v ssa.Value) bool {
+			ex, ok := v.(*ssa.Extract)
+			if !ok || ex.Index != 0 {
+				return false
+			}
+			cl, ok := ex.Tuple.(*ssa.Call)
+			return ok && (isFunc(calleeObj(cl), "io/ioutil", "TempDir") || isFunc(calleeObj(cl), "os", "MkdirTemp"))
+		}
+		n := 0
+		for _, s := range fsSinkSites(sortedFuncsOf(fns)) {
+			if s.Class != "sink" || s.Sink.Class != "remove" {
+				continue
+			}
+			n++
+			name := p.FuncName(s.Fn)
+			pos := p.Pos(s.Call.Pos())
+			if walks[s.Fn] {
+				c.pass(id, name, shortCallee(s.Name), pos, "inside the prepare walk's callback (edges: C03.bundle / C10.removed / C10.links)")
+				continue
+			}
+			arg := canon(s.Call.Common().Args[0])
+			ok := isTemp(arg)
+			if fv, isFV := arg.(*ssa.FreeVar); isFV {
+				ok = false
+				for _, b := range resolveFreeVar(fv) {
+					if isTemp(canon(b)) {
+						ok = true
+					}
+				}
+			}
+			c.check(ok, id, name, shortCallee(s.Name), pos, "removes the temporary work directory as a whole", "something is removed outside the prepare walk's callback that is not the temporary work directory itself: entries of a fetched package disappear although no ignore rule excludes them")
+		}
+		if n == 0 {
+			c.anchorMissing(id, "removing calls in the bundle package")
+		}
+	}
+}
+
+func sortedFuncsOf(fns []*ssa.Function) []*ssa.Function {
+	m := map[*ssa.Function]bool{}
+	for _, f := range fns {
+		m[f] = true
+	}
+	return sortedFuncs(m)
+}
+
+// ruleExtractOnlyUnpacks — the bundle opened from an archive is the tree Unpack made.
+func ruleExtractOnlyUnpacks(id string) func(*Checker) {
+	return func(c *Checker) {
+		c.rule(id, "The functions of the bundle package that call slug's Unpack or Pack (ExtractArchive, WriteArchive) make no file-system-changing call of their own, directly or through functions of the bundle package: between Unpack and OpenDir nothing rewrites the extracted tree (files replaced by hard links to an identical one share its mode and times; a clean-up pass removes what the archive recorded), and writing an archive leaves the bundle directory as it is.", 2)
+		c.absence(id)
+		p := c.P
+		n := 0
+		for _, fn := range p.Funcs {
+			if !inBundlePkg(p, fn) || fn.Parent() != nil {
+				continue
+			}
+			callsSlug := false
+			for _, ci := range callsIn(fn) {
+				g := ci.Common().StaticCallee()
+				if g == nil || g.Pkg == nil || g.Pkg.Pkg.Path() != p.PkgPath("slug") {
+					continue
+				}
+				if g.Name() == "Unpack" || g.Name() == "Pack" {
+					callsSlug = true
+				}
+			}
+			if !callsSlug {
+				continue
+			}
+			n++
+			// reach inside the bundle package only
+			seen := map[*ssa.Function]bool{}
+			var reach func(f *ssa.Function)
+			reach = func(f *ssa.Function) {
+				if f == nil || seen[f] || !inBundlePkg(p, f) {
+					return
+				}
+				seen[f] = true
+				for _, ci := range callsIn(f) {
+					reach(ci.Common().StaticCallee())
+				}
+				for _, an := range f.AnonFuncs {
+					reach(an)
+				}
+			}
+			reach(fn)
+			bad := ""
+			for _, s := range fsSinkSites(sortedFuncs(seen)) {
+				if s.Class == "sink" {
+					bad = shortCallee(s.Name) + " in " + p.FuncName(s.Fn) + " at " + p.Pos(s.Call.Pos())
+					break
+				}
+			}
+			c.check(bad == "", id, p.FuncName(fn), "no file-system change of its own", p.Pos(fn.Pos()), fmt.Sprintf("%d function(s) of the bundle package reachable; none changes the file system", len(seen)), "besides slug's work the function changes the file system itself: "+bad)
+		}
+		if n == 0 {
+			c.anchorMissing(id, "functions of the bundle package that call slug.Unpack / Pack")
+		}
+	}
+}
+
+// ruleNoNameLengthLimit — Unpack takes names of any length, as Pack writes them.
+func ruleNoNameLengthLimit(id string) func(*Checker) {
+	return func(c *Checker) {
+		c.rule(id, "In the UnpackInfo constructor no error return is decided by the LENGTH of the entry's name or path (a comparison of len(x) with a constant above 1, x a string derived from the header's name): Pack writes names of any length (the PAX format has no limit, and 255 bytes bounds one component of a path, not the path), so a length limit makes Unpack refuse slugs Pack produced from deep trees.", 1)
+		u := getUnpackCtx(c, id)
+		if u == nil {
+			return
+		}
+		p := c.P
+		bad := token.NoPos
+		n := 0
+		for _, b := range u.Ctor.Blocks {
+			ifi, ok := b.Instrs[len(b.Instrs)-1].(*ssa.If)
+			if !ok {
+				continue
+			}
+			cond, _ := stripNot(ifi.Cond)
+			bo, ok := cond.(*ssa.BinOp)
+			if !ok {
+				continue
+			}
+			var l, k ssa.Value = bo.X, bo.Y
+			if _, isC := constInt(l); isC {
+				l, k = k, l
+			}
+			kv, isC := constInt(k)
+			lv := lenOf(l)
+			if !isC || lv == nil || kv <= 1 || !isStringType(lv.Type()) {
+				continue
+			}
+			n++
+			// does an edge of this test lead only to error returns?
+			for _, s := range b.Succs {
+				onlyErr, any := true, false
+				seen := map[*ssa.BasicBlock]bool{}
+				var walk func(x *ssa.BasicBlock)
+				walk = func(x *ssa.BasicBlock) {
+					if seen[x] {
+						return
+					}
+					seen[x] = true
+					if r, ok := x.Instrs[len(x.Instrs)-1].(*ssa.Return); ok {
+						any = true
+						if mayReturnNilErr(r) {
+							onlyErr = false
+						}
+						return
+					}
+					for _, sx := range x.Succs {
+						walk(sx)
+					}
+				}
+				walk(s)
+				if any && onlyErr {
+					bad = ifi.Cond.Pos()
+				}
+			}
+		}
+		c.check(bad == token.NoPos, id, p.FuncName(u.Ctor), "no refusal by length", p.Pos(u.Ctor.Pos()), fmt.Sprintf("%d comparison(s) of a string's length with a constant; none decides an error return", n), "the constructor refuses an entry because of the length of its name at "+p.Pos(bad))
+	}
+}
